@@ -11,9 +11,10 @@ git -C "$WT" diff > "$OUT/patch.diff"
 cp "$WT/_demo/demo.py" "$OUT/demo.py"
 cp "$WT/_demo/meta.json" "$OUT/agent_meta.json" 2>/dev/null
 (cd "$WT" && PYTHONPATH=$PP MPLBACKEND=Agg /venv/bin/python -W ignore _demo/demo.py >/tmp/demo_mod.out 2>&1); MOD=$?
-git -C "$WT" stash -q
+# NB: no git stash here — the stash is shared by all worktrees of a repository
+git -C "$WT" apply -R "$OUT/patch.diff" || { echo "cannot reverse patch"; exit 1; }
 (cd "$WT" && PYTHONPATH=$PP MPLBACKEND=Agg /venv/bin/python -W ignore _demo/demo.py >/tmp/demo_base.out 2>&1); BASE=$?
-git -C "$WT" stash pop -q
+git -C "$WT" apply "$OUT/patch.diff"
 TESTS=$(/verif/tools/treetests.sh "$WT" | tr '\n' ';')
 echo "demo modified exit=$MOD unmodified exit=$BASE tests: $TESTS"
 python3 - "$OUT" "$MOD" "$BASE" "$TESTS" <<'PY'
@@ -24,7 +25,7 @@ try: am=json.load(open(os.path.join(out,'agent_meta.json')))
 except Exception: pass
 meta={"property":am.get("property"),"summary":am.get("summary"),"needs":am.get("needs"),"files":am.get("files"),
  "confirmed":{"demo_exit_with_change":int(mod),"demo_exit_without_change":int(base),
-   "tree_tests_with_change":tests,"how":"tools/confirm_seed.sh: demo run with/without the patch (git stash) in the scratch worktree; repository tests run against the patched worktree with PYTHONPATH"},
+   "tree_tests_with_change":tests,"how":"tools/confirm_seed.sh: demo run with/without the patch (git apply -R / git apply) in the scratch worktree; repository tests run against the patched worktree with PYTHONPATH"},
  "detected_by":None}
 json.dump(meta,open(os.path.join(out,'meta.json'),'w'),indent=1)
 PY
